@@ -240,3 +240,44 @@ func ZZHarnessProposerFlow() {
 	}
 	zzReach("end")
 }
+
+// ZZHarnessProposerReplaced (C03): duty A is replaced by duty B (a later slot) while A's consensus is mid-round
+// (proposal accepted, not decided) and B still collects its RANDAO shares. Whatever then arrives for height A -
+// here its decided certificate - is a message "for another height / a finished duty": no validator-key signature.
+func ZZHarnessProposerReplaced() {
+	n := int(zzParam("N"))
+	own := zzCommitteeIDs[n][int(zzParam("OWN"))]
+	g := zzNewPRig(n, own)
+	members := zzCommitteeIDs[n]
+	q := 2*((n-1)/3) + 1
+	HA, HB := phase0.Slot(3), phase0.Slot(3+zzNondetRange("gap", 1, 3))
+	g.bn.blk = &capella.BeaconBlock{Slot: HA, ProposerIndex: 7}
+	zzBlkMarshal(g.bn.blk)
+	dutyA := &spectypes.Duty{Type: spectypes.BNRoleProposer, Slot: HA, ValidatorIndex: 7}
+	epoch := spectypes.PraterNetwork.EstimatedEpochAtSlot(HA)
+	dr, _ := g.bn.DomainData(epoch, spectypes.DomainRandao)
+	randaoRoot, _ := zzETHSigningRoot(spectypes.SSZUint64(epoch), dr)
+	zzAssume(g.run.StartNewDuty(g.lg, dutyA) == nil)
+	for i := 0; i < q; i++ {
+		zzAssume(g.run.ProcessPreConsensus(g.lg, g.partial(spectypes.RandaoPartialSig, HA, members[i], zzSigBy(byte(members[i]), randaoRoot), randaoRoot)) == nil)
+	}
+	zzAssume(g.run.GetState().RunningInstance != nil)
+	valueA, _ := zzCDEncode(&spectypes.ConsensusData{Duty: *dutyA, Version: spec.DataVersionCapella, DataSSZ: []byte{0xB0, 1}})
+	if zzNondetBool("proposalAccepted") {
+		root, _ := zzHashDataRoot(valueA)
+		leader := specqbft.RoundRobinProposer(g.run.GetState().RunningInstance.State, 1)
+		pm := specqbft.Message{MsgType: specqbft.ProposalMsgType, Height: specqbft.Height(HA), Round: 1, Identifier: g.id, Root: root}
+		zzAssume(g.run.ProcessConsensus(g.lg, zzHonest(leader, pm, valueA)) == nil)
+		zzReach("proposal-accepted")
+	}
+	// the next duty starts
+	dutyB := &spectypes.Duty{Type: spectypes.BNRoleProposer, Slot: HB, ValidatorIndex: 7}
+	zzAssume(g.run.StartNewDuty(g.lg, dutyB) == nil)
+	nsig := len(g.km.sigs)
+	zzPhase = 2
+	_ = g.run.ProcessConsensus(g.lg, g.decided(specqbft.Height(HA), 1, valueA, q))
+	zzPhase = 0
+	zzAssert(len(g.km.sigs) == nsig, "a-decision-for-the-replaced-duty-causes-no-validator-key-signature")
+	zzAssert(g.run.GetState().StartingDuty != nil && g.run.GetState().StartingDuty.Slot == HB, "the-new-duty-stays-the-running-duty")
+	zzReach("end")
+}
